@@ -700,8 +700,15 @@ sqf::runtime::runtime::result sqf::runtime::runtime::execute(sqf::runtime::runti
 
 ::sqf::runtime::value sqf::runtime::runtime::evaluate_expression(std::string view, bool& success, bool request_halt)
 {
-    while (m_evaluate_halt);
-    m_evaluate_halt = true;
+    // an evaluation started from inside an evaluation of this thread runs inside it: waiting for the
+    // outer one to finish would wait forever
+    const bool nested = m_evaluate_halt && m_evaluate_owner.load() == std::this_thread::get_id();
+    if (!nested)
+    {
+        while (m_evaluate_halt);
+        m_evaluate_halt = true;
+        m_evaluate_owner = std::this_thread::get_id();
+    }
     if (request_halt)
     {
         while (m_state == state::running);
@@ -730,12 +737,12 @@ sqf::runtime::runtime::result sqf::runtime::runtime::execute(sqf::runtime::runti
         }
         catch (const std::exception& ex)
         {
-            m_evaluate_halt = false;
+            if (!nested) { m_evaluate_halt = false; }
         }
         m_context_active = old_active;
         if (m_runtime_error)
         {
-            m_evaluate_halt = false;
+            if (!nested) { m_evaluate_halt = false; }
             m_runtime_error = false;
             success = false;
             return {};
@@ -743,7 +750,7 @@ sqf::runtime::runtime::result sqf::runtime::runtime::execute(sqf::runtime::runti
         else
         {
             auto val = eval_context->pop_value(true);
-            m_evaluate_halt = false;
+            if (!nested) { m_evaluate_halt = false; }
             success = true;
             if (val.has_value())
             {
@@ -757,7 +764,7 @@ sqf::runtime::runtime::result sqf::runtime::runtime::execute(sqf::runtime::runti
     }
     else
     {
-        m_evaluate_halt = false;
+        if (!nested) { m_evaluate_halt = false; }
         success = false;
         return {};
     }
